@@ -63,15 +63,19 @@ fn oracle(expect_gone: bool, reput: bool) -> Oracle {
                 }
             }
             if reput {
-                // the probe re-puts key 1 and reads it
+                // the probe puts key 1 again and reads it: whenever the key reads as absent at the end of the
+                // window (deleted, or never re-put) the put must be accepted and readable
                 let p = run.calls.iter().find(|c| c.thread == PHASE_POST && matches!(c.op, Op::Put { .. }));
                 let r = run.calls.iter().find(|c| c.thread == PHASE_POST && matches!(c.op, Op::Read { .. }));
+                let readable_at_end = model_read(&run.obs_end, 1).0.is_some();
                 if let (Some(p), Some(r)) = (p, r) {
                     let st = run.status_of(PHASE_POST, p.idx);
-                    if st != Some(CommandStatus::Accepted) {
-                        out.push(Finding::new("reput-after-delete-refused", "delete:reput-refused", format!("after the delete was acknowledged, {} ended with {:?}", p.short(), st.map(|s| status_short(&s)))));
-                    } else if r.res != Res::Read(p.value) {
-                        out.push(Finding::new("reput-after-delete-unreadable", "delete:reput-unreadable", format!("after the delete, {} was accepted but {} returned {:?}", p.short(), r.short(), r.res)));
+                    if !readable_at_end {
+                        if st != Some(CommandStatus::Accepted) {
+                            out.push(Finding::new("reput-after-delete-refused", "delete:reput-refused", format!("after the delete was acknowledged the key reads as absent, but {} ended with {:?}", p.short(), st.map(|s| status_short(&s)))));
+                        } else if r.res != Res::Read(p.value) {
+                            out.push(Finding::new("reput-after-delete-unreadable", "delete:reput-unreadable", format!("after the delete, {} was accepted but {} returned {:?}", p.short(), r.short(), r.res)));
+                        }
                     }
                 }
             }
@@ -95,6 +99,8 @@ fn programs() -> Vec<(Program, bool, bool)> {
     v.push((mk("delete(k);get(k)||{clock;tick}/ttl-expires", vec![put_ttl(1, 2, 1000)], vec![vec![del(1), get(1)], vec![adv(3000), Op::Tick]], reput.clone()), true, true));
     v.push((mk("delete(k);put(k);delete(k)-unawaited", vec![put(1, 2)], vec![vec![del(1), put(1, 3), del(1)]], vec![get(1)]), false, false));
     v.push((mk("delete(k)||delete(k)||get(k)", vec![put(1, 2)], vec![vec![del(1)], vec![del(1)], vec![get(1)]], reput.clone()), true, true));
+    v.push((mk("delete(k)||put(k)", vec![put(1, 2)], vec![vec![del(1)], vec![put(1, 3)]], reput.clone()), false, true));
+    v.push((mk("delete(k)||put(k);get(k)/ttl", vec![put_ttl(1, 2, 5000)], vec![vec![del(1)], vec![put(1, 3), get(1)]], reput.clone()), false, true));
     v.push((mk("delete(k);await;put(k);get(k)||get(k)", vec![put(1, 2)], vec![vec![del(1), Op::Await { call: 0 }, put(1, 3), Op::Await { call: 2 }, get(1)], vec![get(1)]], vec![]), false, false));
     v
 }
@@ -150,6 +156,7 @@ fn seq_spec(ctx: &Ctx) -> SeqSpec {
         oracle: seq_oracle(),
         keys: vec![1, 2],
         canon_sketch: false,
+        ghost_key: None,
         max_states: 2_000_000,
         time_cap_s: if ctx.quick() { 15.0 } else { 300.0 },
     }
